@@ -387,7 +387,7 @@ func c19ArrCount() int { return pick(4, len(c19Arrs)) }
 // propagateMergeDeletes (design doc 6.2) does not reach the moved children and
 // they stay alive: <p>abcdef</p> vs <p>abc</p>. With the deletion's ticket
 // later (upstream's arrangement) the propagation fires and replicas converge.
-const c19FindingMergeLater = "F58"
+const c19FindingMergeLater = "F59"
 
 // c19Known excludes exactly the named cases that fail on the pinned tree for a
 // known finding (case name -> finding tag); they are not run and are counted
